@@ -312,25 +312,39 @@ def fragment_text(kind, pos, nl):
 # ---------------------------------------------------------------------------------------------------
 # the document
 def cells(eng):
-  _rows, cols = adapter.fetch_all(eng)["T"]
-  return {c: [enc_cell(v) for v in cols[c]] for c in COLS}
+  """What T holds, per column; a column (or the table) that cannot be read any more reads as no cells."""
+  try:
+    _rows, cols = adapter.fetch_all(eng)["T"]
+  except Exception:   # pylint: disable=broad-except
+    cols = {}
+  return {c: [enc_cell(v) for v in cols.get(c, [])] for c in COLS}
 
 
 def whole(eng):
-  return json.dumps(adapter.fetch_all(eng), sort_keys=True, default=repr)
+  try:
+    return json.dumps(adapter.fetch_all(eng), sort_keys=True, default=repr)
+  except Exception as e:   # pylint: disable=broad-except
+    return "unreadable: %s %d" % (type(e).__name__, id(e))     # never equal to another reading
 
 
 def errors_elsewhere(eng):
   n = 0
-  for tid, (_rows, cols) in adapter.fetch_all(eng).items():
+  try:
+    tables = adapter.fetch_all(eng)
+  except Exception:   # pylint: disable=broad-except
+    return 1
+  for tid, (_rows, cols) in tables.items():
     if tid != "T":
       n += sum(1 for vals in cols.values() for v in vals if isinstance(v, (list, tuple)) and v and v[0] == "E")
   return n
 
 
 def error_classes(eng, col):
-  _rows, cols = adapter.fetch_all(eng)["T"]
-  return sorted({str(v[1]) for v in cols[col] if isinstance(v, (list, tuple)) and len(v) > 1 and v[0] == "E"})
+  try:
+    _rows, cols = adapter.fetch_all(eng)["T"]
+  except Exception:   # pylint: disable=broad-except
+    return []
+  return sorted({str(v[1]) for v in cols.get(col, []) if isinstance(v, (list, tuple)) and len(v) > 1 and v[0] == "E"})
 
 
 def build_base(doc):
@@ -374,16 +388,19 @@ def do_case(eng, inp, doc):
   out["x_ok"], out["x_exc"] = attempt(lambda: set_formula(eng, "X", xtext, inp["how"]))
   out["same"] = whole(eng) == before
   out["s2"] = cells(eng)
+  consistent = adapter.schema_consistent(eng)
   out["xclass"] = error_classes(eng, "X")
   elsewhere = errors_elsewhere(eng)
   a, b = inp["newrow"]
   out["add_ok"], out["add_exc"] = attempt(lambda: adapter.apply(eng, [["AddRecord", "T", None, {"a": a, "b": b}]]))
   out["s3"] = cells(eng)
+  consistent = adapter.schema_consistent(eng) and consistent
   elsewhere += errors_elsewhere(eng)
   fix = spell(doc["fix"], "dollar")
   out["fix_ok"], out["fix_exc"] = attempt(lambda: set_formula(eng, "X", fix, "modify"))
   out["s4"] = cells(eng)
   out["elsewhere"] = elsewhere + errors_elsewhere(eng)
+  out["consistent"] = adapter.schema_consistent(eng) and consistent
   return out
 
 
@@ -391,7 +408,7 @@ def died(why):
   empty = {c: [] for c in COLS}
   return {"f_ok": False, "f_exc": why, "s1": empty, "x_ok": False, "x_exc": why, "same": False, "s2": empty,
           "xclass": [], "add_ok": False, "add_exc": why, "s3": empty, "fix_ok": False, "fix_exc": why, "s4": empty,
-          "elsewhere": 0}
+          "elsewhere": 0, "consistent": False}
 
 
 class CaseTimeout(BaseException):
